@@ -393,11 +393,23 @@ def tasks(tier, seed):
     n = 2500 if tier == "quick" else 40000
     for k in range(6):
         ts.append({"name": "random-%d" % k, "fn": "t_random", "kw": {"seed": mix(seed, ID, k), "n": n}})
+    for k in range(4):
+        ts.append({"name": "textfuzz-%d" % k, "fn": "t_textfuzz", "kw": {"seed": mix(seed, ID, "textfuzz", k), "n": 1200 if tier == "quick" else 20000}})
     return ts
+
+
+def t_textfuzz(seed, n):
+    """mutated query text classified by the independent RFC 9535 parser + typing checker (vf.textfuzz)"""
+    from .. import textfuzz
+    return textfuzz.task(seed, n, 'gate')
 
 
 def replay(case):
     stats = Stats()
+    if case.get("origin") == "textfuzz":
+        from .. import textfuzz
+        textfuzz.replay_case(stats, case)
+        return stats
     env = jsonpath.DEFAULT_ENV
     for name, lo, hi in CONFIGS:
         if case.get("config") == name and name != "default":
@@ -410,4 +422,7 @@ def replay(case):
 
 
 def shrink(case, pred):
+    if case.get("origin") == "textfuzz":
+        from .. import textfuzz
+        return textfuzz.shrink_case(case, pred)
     return case
